@@ -65,11 +65,22 @@ Section Machine.
     intros Hr Hw. apply Hr. eapply sweep_nodes_sub. apply (i_nodes_wl _ _ (sweep_inv _ _ Hr)). exact Hw.
   Qed.
 
-  Lemma Inv_sweep s u v : Inv s -> Inv (ST (live s) u (sweep (live s) (g s)) v (next s)).
+  Lemma Inv_sweep s u v es : Inv s -> Inv (ST (live s) u (sweep (live s) (g s)) v es (next s)).
   Proof.
     intros [A B C D]. constructor; simpl; auto.
     - now apply sweep_inv.
     - intros w Hw. apply D. eapply sweep_wl_sub; eauto.
+  Qed.
+
+  (* fewer instances exist (some were reclaimed), the graph is the same or was swept *)
+  Lemma Inv_sub s p r' u v es :
+    Inv s -> RegInv (live s) r' -> (forall w, In w (wl r') -> In w (wl (g s))) ->
+    Inv (ST (filter p (live s)) u r' v es (next s)).
+  Proof.
+    intros [A B C D] Hr Hw. constructor; simpl; auto.
+    - eapply RegInv_sub; [|exact Hr]. intros y Hy. apply filter_In in Hy. tauto.
+    - now apply WorldOk_filter.
+    - intros y Hy. apply filter_In in Hy. apply C. tauto.
   Qed.
 
   Lemma relate_spec L r a f b ia ib :
@@ -100,7 +111,7 @@ Section Machine.
 
   Lemma step_Inv s o : Inv s -> adm s o = true -> Inv (fst (step s o)).
   Proof.
-    intros HI Ha. destruct HI as [A B C D]. destruct o as [c p i|x| |T|T|T|k|a f b ia ib|]; simpl in *.
+    intros HI Ha. destruct HI as [A B C D]. destruct o as [c p i|x| |T|T|T|k|k|n y|n|a f b ia ib|]; simpl in *.
     - (* New *)
       apply andb_true_iff in Ha. destruct Ha as [Hp Hi].
       assert (HW : WorldOk (live s ++ [O (next s) c p])).
@@ -117,15 +128,28 @@ Section Machine.
       + intros y Hy. apply in_app_iff in Hy. destruct Hy as [Hy|[<-|[]]]; [apply C in Hy; lia|simpl; lia].
       + intros w Hw. apply in_app_iff in Hw. destruct Hw as [Hw|[<-|[]]]; [apply D in Hw; lia|simpl; lia].
     - (* Drop *)
-      destruct (pinned (vars s) x); simpl; constructor; simpl; auto.
-      + eapply RegInv_sub; [|eauto]. intros y Hy. apply filter_In in Hy. tauto.
-      + now apply WorldOk_filter.
-      + intros y Hy. apply filter_In in Hy. apply C. tauto.
+      destruct (pinned (evals s) x); simpl; [constructor; simpl; auto|].
+      apply (Inv_sub s); auto. constructor; auto.
     - now apply Inv_sweep.
     - now apply Inv_sweep.
     - now apply Inv_sweep.
     - constructor; simpl; auto.
-    - destruct (nth_error (vars s) k) as [[T [| |l]]|]; simpl; try (now apply Inv_sweep); constructor; auto.
+    - destruct (nth_error (vars s) k); simpl; [now apply Inv_sweep|constructor; auto].
+    - destruct (nth_error (vars s) k); simpl; constructor; auto.
+    - (* NextV *)
+      assert (HI : Inv s) by (constructor; auto).
+      destruct (nth_error (evals s) n) as [[e|]|]; simpl; auto.
+      destruct (e_stale e); simpl; auto.
+      set (r := if e_started e then g s else sweep (live s) (g s)).
+      assert (Hr : RegInv (live s) r) by (unfold r; destruct (e_started e); auto; now apply sweep_inv).
+      assert (Hw : forall w, In w (wl r) -> In w (wl (g s))).
+      { unfold r. destruct (e_started e); auto. intros w. now apply sweep_wl_sub. }
+      destruct (pull (live s) r _) as [[[v cur] cs]|]; simpl.
+      + constructor; simpl; auto.
+      + unfold release. apply (Inv_sub s); auto.
+    - (* CloseV *)
+      destruct (nth_error (evals s) n); simpl; [|constructor; auto].
+      unfold release. apply (Inv_sub s); auto. constructor; auto.
     - (* Relate *)
       destruct (relate_spec (live s) (g s) a f b ia ib A B Ha) as [r' [nw [E [Hr' [Hs _]]]]].
       rewrite E. simpl. constructor; simpl; auto.
